@@ -18,7 +18,8 @@ from ..native import Pool
 from ..tlc import MachineryError, run_tlc, workdir
 from . import _pipe
 
-PARAMS = {"quick": dict(per=4, tries=60, inputs=4, caps=[1]), "thorough": dict(per=12, tries=300, inputs=10, caps=[1, 2, None])}
+PARAMS = {"quick": dict(per=4, tries=60, inputs=4, caps=[1], gen_kernels=5, gen_cells=5),
+          "thorough": dict(per=12, tries=300, inputs=10, caps=[1, 2, None], gen_kernels=60, gen_cells=7)}
 MAPS = ["triple", "zero"]
 
 
@@ -34,6 +35,22 @@ def script(k):
         s += [{"op": "revalue", "val": 0, "map": m}, {"op": "run", "prog": cmp_, "track": False},
               {"op": "snap", "vals": True}]
     return s
+
+
+def gen_script(k):
+    """The same history with the stored subset of every input chosen by TLC at the first load (all patterns); later
+    phases re-install that content in fresh memory."""
+    s = script(k)
+    first = True
+    out = []
+    for op in s:
+        if op["op"] == "load":
+            # the second half starts again from the ORIGINAL content (recorded by the first snapshot)
+            out.append({"op": "load", "val": 0, "dims": 1} if first else {"op": "reload", "from": 1})
+            first = False
+        else:
+            out.append(op)
+    return out
 
 
 def obs_script():
@@ -98,6 +115,56 @@ def _run(tier, seed):
         elif l["v"]["c04"] != "ok":
             vio.append(_pipe.violation({**meta[cid], "v": l["v"]}, l["v"]["c04"], "machine", "C04"))
 
+    # every input pattern (TLC chooses the stored subset of every operand) for a few small kernels
+    GEN_VALUES = [1, 2, 3, -1, 0.5, 4, 2, 1]
+    order = list(range(len(klist)))
+    rng.shuffle(order)
+    gcases, gmeta, gexpected = [], {}, 0
+    for ki in order:
+        if len(gcases) >= P["gen_kernels"]:
+            break
+        k, group, cap = klist[ki]
+        if group in ("broadcast-target", "big-literal", "inexact-literal") or exprs.shape_tags(k.asg):
+            continue
+        fu = exprs.first_use(k.asg)
+        cls = exprs.index_classes(k.asg)
+        dims = {i: 2 for i in cls}
+
+        def ncells(dm):
+            return sum(len(kernels.cells_of([dm[i] for i in fu[nm]])) for nm in fu)
+
+        for i in sorted(dims, reverse=True):
+            if ncells(dims) <= P["gen_cells"]:
+                break
+            for j in dims:
+                if cls[j] == cls[i]:
+                    dims[j] = 1
+        if not 0 < ncells(dims) <= P["gen_cells"]:
+            continue
+        gen = {}
+        for nm in fu:
+            cells = kernels.cells_of([dims[i] for i in fu[nm]])
+            gen[nm] = {"cells": [list(c) for c in cells], "vals": [dyadic(GEN_VALUES[j % len(GEN_VALUES)]) for j in range(len(cells))]}
+        gid = len(gcases) + 1
+        c = dict(kernels.base_case(k, gid, [dims], [{}], gen_script(k), "history"), nmaps=len(MAPS))
+        c["gen"] = dict(gen, _={"cells": [], "vals": []})
+        gcases.append(c)
+        gmeta[gid] = {"kernel": ki, "text": k.text, "formats": k.formats, "cap": cap, "group": group, "dims": dims, "content": None}
+        gexpected += 2 ** ncells(dims)
+    g_states = g_trans = 0
+    if gcases:
+        dump(gcases, d / "gcases.json")
+        rg = run_tlc("KernelRun", "KernelRun.cfg", env={"VF_PROGS": d / "progs.json", "VF_CASES": d / "gcases.json"}, timeout=7200)
+        if len(rg.lines) != gexpected:
+            raise MachineryError(f"C04 (TLC-chosen inputs): {len(rg.lines)} verdicts, {gexpected} expected")
+        g_states, g_trans = rg.distinct, rg.generated
+        for l in rg.lines:
+            if "value-range" in l["v"]["c04"] or "unsupported-node" in l["v"]["c04"]:
+                inconclusive += 1
+            elif l["v"]["c04"] != "ok":
+                m = dict(gmeta[l["case"]], content=l.get("content"))
+                vio.append(_pipe.violation({**m, "v": l["v"]}, l["v"]["c04"], "machine-all-input-patterns", "C04"))
+
     # native history, validated as a trace
     bad_kernels = {meta[c]["kernel"] for c, l in lines.items() if l["v"]["c04"] != "ok"}
     tasks = []
@@ -148,7 +215,7 @@ def _run(tier, seed):
             c["nmaps"] = len(MAPS)
             obs.append(c)
             obs_meta[cid] = m
-    states, trans, ntr = r.distinct, r.generated, 0
+    states, trans, ntr = r.distinct + g_states, r.generated + g_trans, 0
     if obs:
         dump(obs, d / "obs.json")
         r2 = run_tlc("KernelRun", "KernelRun.cfg", env={"VF_PROGS": d / "progs.json", "VF_CASES": d / "obs.json"})
@@ -173,7 +240,8 @@ def _run(tier, seed):
            "rule": "catalogue x seeded formats (kernels where assemble, compute, evaluate all generate) x seeded inputs; "
                    "history = evaluate; assemble; freeze; compute; re-value x3; compute; re-value 0; compute. "
                    "Non-trivial = evaluate's output stores a non-zero value.",
-           "samples": samples, "kernels": len(klist), "inconclusive": inconclusive, "exhaustive": False}
+           "samples": samples, "kernels": len(klist), "inconclusive": inconclusive, "exhaustive": False,
+           "kernels_with_all_input_patterns": len(gcases), "histories_from_all_input_patterns": gexpected}
     return {"violations": vio, "coverage": cov, "assumptions": _pipe.ASSUMPTIONS}
 
 
